@@ -447,6 +447,14 @@ def run_scenario(sc):
         if os.environ.get("VERIF_DEBUG"):
             import traceback
             traceback.print_exc()
+    # what the driver learnt in the INIT handshake vs what the gateway said on the connection that is open at the end
+    hs = {"applies": 0, "fw": "", "serial": "", "inits": [], "want_fw": "4.2", "want_serial": "12345678"}
+    try:
+        if r.kind == "tridonic" and r.driver.connected.is_set() and r.gw.present:
+            hs.update(applies=1, fw=str(r.driver.firmware_version), serial=str(r.driver.serial),
+                      inits=list(getattr(r.gw, "inits_since_open", [])))
+    except Exception:
+        pass
     lock_free = None
     try:
         lock_free = 0 if r.driver.transaction_lock.locked() else 1
@@ -482,7 +490,7 @@ def run_scenario(sc):
             pass
     return {"driver": sc["driver"], "wire": r.gw.cmdlog, "writes": r.gw.writes if sc.get("keep_writes") else [],
             "nwrites": len(r.gw.writes), "callers": callers, "lock_free": lock_free, "status": r.status,
-            "traffic": [[n, v] for n, v in sorted(r.traffic.items())], "out": out, "info": info,
+            "traffic": [[n, v] for n, v in sorted(r.traffic.items())], "out": out, "info": info, "hs": hs,
             "opens": getattr(r.gw, "openlog", []), "present_at_end": 1 if r.gw.present else 0,
             "lost_at": round(r.lost_at, 6), "returned_in_time": r.returned_in_time,
             "reports": r.gw.reports if sc.get("keep_reports") else [],
